@@ -4,7 +4,7 @@ from . import tygen as TG
 from . import gencrate as GC
 from . import datacases as D
 
-THEOREMS = []
+THEOREMS = ["C01_enc_total", "C01_roundtrip", "C01_injective", "C01_unwritable_panics", "C01_hypotheses_satisfiable", "C01_identity", "C01_container_noschema", "C01_container_plain", "C01_container_bzip2"]
 
 
 def run(chk, tier, seed):
